@@ -386,7 +386,43 @@ def r06_9(chk):
     chk.floor("R06.9", 3, "terminator, trim, empty guard")
 
 
+def _zero_length_tail_slices(fn):
+    """`x[-n:]` where n is a local bound to a remainder (a % b) or a difference of lengths -- for n == 0 that is x[0:], the
+    whole string -- without a test of n guarding the slice"""
+    from ..defuse import assignments
+
+    maybe_zero = {t.id for tg, v, _ in assignments(fn) if isinstance(v, ast.BinOp) and isinstance(v.op, (ast.Mod, ast.Sub)) for t in tg if isinstance(t, ast.Name)}
+    out = []
+    for sub in ast.walk(fn):
+        if isinstance(sub, ast.Subscript) and isinstance(sub.slice, ast.Slice) and sub.slice.upper is None and isinstance(sub.slice.lower, ast.UnaryOp) and isinstance(sub.slice.lower.op, ast.USub) and isinstance(sub.slice.lower.operand, ast.Name) and sub.slice.lower.operand.id in maybe_zero:
+            n = sub.slice.lower.operand.id
+            guarded = any(isinstance(i, (ast.If, ast.IfExp)) and n in {x.id for x in ast.walk(i.test) if isinstance(x, ast.Name)} and any(x is sub for x in ast.walk(i)) for i in ast.walk(fn))
+            if not guarded:
+                out.append((sub, n))
+    return out
+
+
+def r06_10(chk):
+    chk.rule("R06.10", "block wrapping at exact multiples of the line width: no writer helper takes the last block as `s[-tail:]` with `tail` a remainder that can be zero and no test of it -- for tail == 0 that slice is the WHOLE string, so a sequence whose length is an exact multiple of the block size is written twice")
+    n = 0
+    for rel in ("format/util.py", "format/fasta.py", "format/phylip.py", "format/paml.py", "format/gde.py", "format/alignment.py"):
+        try:
+            m = chk.repo.module(rel)
+        except AnalysisError:
+            continue
+        for q, fn in m.all_functions():
+            n += 1
+            for sub, nm in _zero_length_tail_slices(fn):
+                chk.violation("R06.10", key(m, q, f"`{norm(sub)}` with {nm} possibly 0"), m.loc(sub), f"`{norm(sub)}` is the whole string when `{nm}` is 0 (an exact multiple of the block size): the sequence is written a second time -- a GDE file then loads as an alignment of twice the length, a PAML file does not load")
+    probe = ast.parse("def f(s, b):\n    tail = len(s) % b\n    out = [s[i:i + b] for i in range(0, len(s) - tail, b)]\n    out.append(s[-tail:])\n    return out\n").body[0]
+    if not _zero_length_tail_slices(probe):
+        raise AnalysisError("R06.10 self-probe failed")
+    chk.ok("R06.10", key(chk.repo.module("format/util.py"), "*", "no unguarded s[-tail:]"), "format/", f"{n} writer functions scanned", nontrivial=False)
+    chk.floor("R06.10", 0, "expected-zero rule with embedded probe")
+
+
 def run(chk):
+    r06_10(chk)
     r06_9(chk)
     r06_8(chk)
     r06_1(chk)
